@@ -56,7 +56,9 @@ var c15Pkgs = []c15Pkg{
 // hand-written file that uses the not-yet-generated code); its name must still be taken over
 var c15Existing = []string{"none", "same-name", "other-name", "other-name-broken"}
 
-var c15Invocations = []string{"root", "chdir", "cwd-flag"}
+// root+cli-file: a command-line output:file that the converter's own output:file overrides (it only differs from
+// "root" for converters that set output:file themselves)
+var c15Invocations = []string{"root", "chdir", "cwd-flag", "root+cli-file"}
 
 var reNonAlnum = regexp.MustCompile(`[^a-z0-9]`)
 
@@ -89,7 +91,7 @@ func c15Cases(thorough bool) []c15Case {
 		for _, pk := range c15Pkgs {
 			for _, ex := range c15Existing {
 				for ii, inv := range c15Invocations {
-					if !thorough && ii > 0 && fl.name != "cwd-relative" && fl.name != "default" {
+					if !thorough && ii > 0 && ii < 3 && fl.name != "cwd-relative" && fl.name != "default" {
 						continue
 					}
 					n++
@@ -159,7 +161,7 @@ func RunC15(run *ev.Run) {
 	}
 	run.Cov["cross_package_runs"] = nx
 	run.Cov["evaluations"] = len(cases) + nx
-	run.Cov["rule"] = "product of output:file {absent, ./x/y.go, ../gen/z.go, same directory, no ./ prefix, absolute, @cwd/..., directory name needing normalisation} x output:package {absent, PATH, PATH:NAME, :NAME} x target package {absent, existing with the same name, existing with another name, existing with another name and not type-checking} x invocation {module root, chdir into the package, -cwd} plus multi-converter shapes {two converters one file, two converters one file with different packages (must fail), two files in one package, interface + variables block}; the real CLI runs with umask 0 on a scratch module; oracle: the set of created/changed paths equals the independently predicted set, package clause as predicted (configured name, else existing package, else normalised directory name), new files 0644, new directories 0755, merged files parse and the module builds; across input packages: a package whose output directory holds an existing package of another name, referenced by a sibling package through extend / map|FUNC / default, gets byte-identical files in the joint run and when generated alone"
+	run.Cov["rule"] = "product of output:file {absent, ./x/y.go, ../gen/z.go, same directory, no ./ prefix, absolute, @cwd/..., directory name needing normalisation} x output:package {absent, PATH, PATH:NAME, :NAME} x target package {absent, existing with the same name, existing with another name, existing with another name and not type-checking} x invocation {module root, chdir into the package, -cwd, module root with a command-line output:file that the converter overrides} plus multi-converter shapes {two converters one file, two converters one file with different packages (must fail), two files in one package, interface + variables block}; the real CLI runs with umask 0 on a scratch module; oracle: the set of created/changed paths equals the independently predicted set, package clause as predicted (configured name, else existing package, else normalised directory name), new files 0644, new directories 0755, merged files parse and the module builds; across input packages: a package whose output directory holds an existing package of another name, referenced by a sibling package through extend / map|FUNC / default, gets byte-identical files in the joint run and when generated alone"
 }
 
 func c15Run(bin, root string, c c15Case) ([]ev.Violation, string) {
@@ -174,6 +176,10 @@ func c15Run(bin, root string, c c15Case) ([]ev.Violation, string) {
 	case "cwd-flag":
 		args = append(args, "-cwd", "conv")
 		cwdRel, pattern = "conv", "."
+	case "root+cli-file":
+		if c.file.name != "default" {
+			args = append(args, "-g", "output:file ./fromcli/cli.go")
+		}
 	}
 	args = append(args, pattern)
 	rel := path.Clean(c.file.rel(declDir, cwdRel))
